@@ -15,6 +15,10 @@ suspending user `aclose()` is outside the model; see DESIGN.md §7 D17).
 
 Locks, caches, cached properties, ExitStack and scoped_iter are covered by their own machines
 (C09, C11, C12, C14, C08).
+
+`chain` is the one tool whose sources are not all released when the exception has propagated (the
+arguments it had not started yet, known finding D19): its statement is two-step — the run ends with
+the cancellation, then the owner closes the `chain` — see `C18_chain` / `C18_chain_close_quiet`.
 -/
 namespace AsyncVerif
 
@@ -119,5 +123,135 @@ theorem C18_set (s fuel : Nat) : CancelSafe (Impl.set s fuel) s :=
 
 theorem C18_dict (s fuel : Nat) : CancelSafe (Impl.dict s fuel) s :=
   cancelSafe_of (C06_dict s fuel) (C04_dict s fuel)
+
+/-- `cycle`: the source is owned during the first pass only (the replay phase never touches it); a
+    cancellation in either phase propagates unchanged and leaves the source released -/
+theorem C18_cycle (s fuel : Nat) : CancelSafe (Impl.cycle s fuel) s :=
+  cancelSafe_of (C06_cycle s fuel) (C04_cycle s fuel)
+
+/-- `sorted`: items and keys are collected inside the scope of the source; a cancellation while
+    collecting (in the source or in the key function) propagates unchanged and leaves the source released -/
+theorem C18_sorted (fn : Option Nat) (reverse : Bool) (s fuel : Nat) :
+    CancelSafe (Impl.sorted fn reverse s fuel) s :=
+  cancelSafe_of (C06_sorted fn reverse s fuel) (C04_sorted fn reverse s fuel)
+
+/-! ## chain
+
+`chain` scopes its arguments one after the other, so a cancellation that ends the run while argument
+`k` is being passed through finds the arguments after `k` not started.  The one-step statement
+`∀ s ∈ srcs, CancelSafe (Impl.chain srcs fuel) s` is therefore **false** of the model and of the
+library (known finding D19; counterexample in the Examples section below): a later async-generator
+argument is still `fresh` when the exception has propagated.  C18 only asks for the sources to be
+released "once the owner has closed the library iterator it was advancing", so the statement for
+`chain` is two-step: the run ends with the cancellation, then the owner calls `chain.aclose()`.
+In the model `chain.aclose()` after a raise is `Impl.closeOwned srcs` (`for it in
+self._owned_iterators: await it.aclose()`), followed by `aclose()` of the already finished
+`_chain_iterator` generator, which is a no-op.
+-/
+
+/-- `chain` under cancellation.  If the run of the handle is ended by user exception `e` (a fault of an
+    argument or an exception thrown in by the consumer — to the library a cancellation is one of these) then
+
+    1. that very `e` propagates and the fault that raised it is the last visible event, with no fault before it
+       (same clause as in `CancelSafe`);
+    2. when the exception has propagated, every argument is released **or has not been touched at all**
+       (`srcs s` is exactly what was handed in): the arguments up to the one that was being passed through were
+       each released by their own scope, the arguments after it were never started (D19: these may be open);
+    3. after the owner's `chain.aclose()` — `Impl.closeOwned srcs` run in the world the raise left behind —
+       **every** argument `s ∈ srcs` is `Released`.
+
+    On kinds: `Released` constrains async generators (`.agen`: closed, exhausted or failed) and class-based
+    iterators with `aclose` (`.aobj`: `aclose()` was called or it reported its end) — exactly the arguments
+    `_owned_iterators` contains.  For the synchronous kinds (`.list`/`.seq`/`.iter`) and for `.aobjNc` there
+    is no user `aclose` and `Released` holds by definition; what holds for them concretely is clause 2 (reached:
+    the `_aiter_sync` wrapper was closed by the scope; not reached: untouched) together with
+    `C18_chain_close_quiet` (the owner's close does not touch them). -/
+theorem C18_chain (srcs : List Nat) (fuel : Nat) (w : World) (e : Nat)
+    (he : (Impl.chain srcs fuel w).1 = .error (.user e)) :
+    (∃ pre ev, (Impl.chain srcs fuel w).2.vis = w.vis ++ pre ++ [ev] ∧ isFault e ev = true
+        ∧ ∀ x ∈ pre, anyFault x = false)
+    ∧ (∀ s ∈ srcs, Released ((Impl.chain srcs fuel w).2.srcs s) ∨ (Impl.chain srcs fuel w).2.srcs s = w.srcs s)
+    ∧ (∀ s ∈ srcs, Released ((Impl.closeOwned srcs (Impl.chain srcs fuel w).2).2.srcs s)) := by
+  obtain ⟨h1, h2⟩ := C04_chain_raised srcs fuel w (.user e) he (by simp)
+  exact ⟨C06_surfaces_at_once (C06_chain srcs fuel) w e he, h1, h2⟩
+
+/-- The owner's `chain.aclose()` (`Impl.closeOwned srcs`), in **any** world `w'` (in particular the one a
+    cancelled run left behind): it never raises, adds no visible event (no source is polled, no callable
+    invoked, nothing is yielded — the only user code run is `aclose()` of owned arguments, H-close), leaves the
+    consumer as it is, and leaves untouched every source that is not an owned argument: one that is not
+    in `srcs`, or whose kind is not an async iterator with `aclose`. -/
+theorem C18_chain_close_quiet (srcs : List Nat) (w' : World) :
+    (Impl.closeOwned srcs w').1 = .ok ()
+    ∧ (Impl.closeOwned srcs w').2.vis = w'.vis
+    ∧ (Impl.closeOwned srcs w').2.cons = w'.cons
+    ∧ (∀ t, t ∉ srcs → (Impl.closeOwned srcs w').2.srcs t = w'.srcs t)
+    ∧ (∀ t, (w'.srcs t).kind ≠ .agen → (w'.srcs t).kind ≠ .aobj → (Impl.closeOwned srcs w').2.srcs t = w'.srcs t) := by
+  obtain ⟨h1, h2, h3⟩ := closeOwned_quiet srcs w'
+  refine ⟨h1, h2, h3, fun t ht => closeOwned_srcs_other srcs t w' ht, fun t ha hb => ?_⟩
+  exact closeOwned_srcs_unowned srcs t w' (fun h => h.elim ha hb)
+
+section Examples
+
+/-- sources 0 and 1 are async generators, source 2 a class-based iterator with `aclose`, source 3 a list;
+    source 0 delivers one item and is then cancelled (fault 7) at its second `__anext__` -/
+private def wC : World where
+  srcs := fun s =>
+    if s = 0 then { kind := .agen, script := [.item (.obj 1 5), .err 7, .item (.obj 2 6)] }
+    else if s = 1 then { kind := .agen, script := [.item (.obj 3 1)] }
+    else if s = 2 then { kind := .aobj, script := [.item (.obj 4 2)] }
+    else { kind := .list, script := [.item (.obj 5 3)] }
+  fns := fun _ _ args => .ok (args.headD .none)
+  calls := fun _ => 0
+  cons := .run 5 .exhaust
+  vis := []
+  rel := []
+
+/-- the same sources without the fault in source 0 … but the consumer throws 9 in at the second item
+    (the first item of source 1) -/
+private def wT : World :=
+  { wC with
+    srcs := fun s => if s = 0 then { kind := .agen, script := [.item (.obj 1 5)] } else wC.srcs s
+    cons := .run 1 (.throw 9) }
+
+example : (Impl.cycle 0 10 wC).1 = .error (.user 7) := by rfl
+example : Released ((Impl.cycle 0 10 wC).2.srcs 0) := (C18_cycle 0 10 wC 7 rfl).2
+example : ((Impl.cycle 0 10 wC).2.srcs 0).status = .failed := by rfl
+
+example : (Impl.sorted (some 0) true 0 10 wC).1 = .error (.user 7) := by rfl
+example : Released ((Impl.sorted (some 0) true 0 10 wC).2.srcs 0) := (C18_sorted (some 0) true 0 10 wC 7 rfl).2
+
+/-- `chain(s0, s1, s2, s3)` cancelled inside `s0` -/
+example : (Impl.chain [0, 1, 2, 3] 10 wC).1 = .error (.user 7) := by rfl
+/-- D19: when the exception has propagated the later arguments are still unstarted … -/
+example : ((Impl.chain [0, 1, 2, 3] 10 wC).2.srcs 1).status = .fresh := by rfl
+example : ((Impl.chain [0, 1, 2, 3] 10 wC).2.srcs 2).closes = 0 := by rfl
+/-- … so the one-step statement is false for `chain` -/
+example : ¬ CancelSafe (Impl.chain [0, 1, 2, 3] 10) 1 := by
+  intro h
+  have h1 := (h wC 7 rfl).2
+  have hk : ((Impl.chain [0, 1, 2, 3] 10 wC).2.srcs 1).kind = .agen := rfl
+  have hs : ((Impl.chain [0, 1, 2, 3] 10 wC).2.srcs 1).status = .fresh := rfl
+  unfold Released at h1
+  rw [hk] at h1
+  simp [hs] at h1
+/-- … and the owner's close releases them -/
+example : ∀ s ∈ [0, 1, 2, 3], Released ((Impl.closeOwned [0, 1, 2, 3] (Impl.chain [0, 1, 2, 3] 10 wC).2).2.srcs s) :=
+  (C18_chain [0, 1, 2, 3] 10 wC 7 rfl).2.2
+example : ((Impl.closeOwned [0, 1, 2, 3] (Impl.chain [0, 1, 2, 3] 10 wC).2).2.srcs 1).status = .closed := by rfl
+example : ((Impl.closeOwned [0, 1, 2, 3] (Impl.chain [0, 1, 2, 3] 10 wC).2).2.srcs 2).closes = 1 := by rfl
+/-- the list argument was never started and the owner's close does not touch it -/
+example : ((Impl.closeOwned [0, 1, 2, 3] (Impl.chain [0, 1, 2, 3] 10 wC).2).2.srcs 3).status = .fresh := by rfl
+
+/-- cancellation delivered at a `yield` (the consumer throws into the suspended `chain`): source 0 is
+    exhausted, source 1 was being passed through and is closed by its scope, 2 and 3 wait for the owner -/
+example : (Impl.chain [0, 1, 2, 3] 10 wT).1 = .error (.user 9) := by rfl
+example : ((Impl.chain [0, 1, 2, 3] 10 wT).2.srcs 1).status = .closed := by rfl
+example : ((Impl.chain [0, 1, 2, 3] 10 wT).2.srcs 2).closes = 0 := by rfl
+example : ∀ s ∈ [0, 1, 2, 3], Released ((Impl.closeOwned [0, 1, 2, 3] (Impl.chain [0, 1, 2, 3] 10 wT).2).2.srcs s) :=
+  (C18_chain [0, 1, 2, 3] 10 wT 9 rfl).2.2
+example : (Impl.closeOwned [0, 1, 2, 3] (Impl.chain [0, 1, 2, 3] 10 wT).2).2.vis = (Impl.chain [0, 1, 2, 3] 10 wT).2.vis :=
+  (C18_chain_close_quiet [0, 1, 2, 3] _).2.1
+
+end Examples
 
 end AsyncVerif
